@@ -56,6 +56,27 @@ impl SwarmDriver {
             .collect()
     }
 
+    /// (number of `BadQuoting` issues currently recorded against `peer`, considered bad)
+    pub fn verif_bad_quoting_issues(&self, peer: &PeerId) -> (usize, bool) {
+        self.bad_nodes
+            .get(peer)
+            .map(|(issues, bad)| {
+                (
+                    issues
+                        .iter()
+                        .filter(|(i, _)| matches!(i, crate::NodeIssue::BadQuoting))
+                        .count(),
+                    *bad,
+                )
+            })
+            .unwrap_or((0, false))
+    }
+
+    /// the quote kept as `peer`'s history reference
+    pub fn verif_quote_history(&self, peer: &PeerId) -> Option<ant_evm::PaymentQuote> {
+        self.quotes_history.get(peer).cloned()
+    }
+
     pub fn verif_pending_requests_len(&self) -> usize {
         self.pending_requests.len()
     }
